@@ -197,9 +197,11 @@ class Sample(object):
         # dominate at long times, but at short times they will not affect the
         # derivative. Choosing a time that satisfies the longest half-life seems
         # to work well enough.
-        # Products with no activity do not constrain the time.
-        initial = max(-log(target/Ia)/La for Ia, La in data if Ia > 0)
-        t, ft = find_root(initial, f, df)
+        # Products with no activity do not constrain the time, and the time
+        # is known to be positive since activity is above target at removal.
+        initial = max([0.] + [-log(target/Ia)/La for Ia, La in data if Ia > 0])
+        # Use a tolerance relative to the target so small targets are solved.
+        t, ft = find_root(initial, f, df, tol=1e-10*target)
         percent_error = 100*abs(ft)/target
         if percent_error > 0.1:
             #return 1e100*365*24 # Return 1e100 rather than raising an error
